@@ -126,6 +126,11 @@ Variable native_display : ustring -> ustring -> ustring.
 Variable native_ser : ustring -> ustring -> ustring.
 (* native types for which Display = Serialize has been validated *)
 Variable native_fmt_ok : ustring -> bool.
+(* native types whose wire form is always a JSON string.  On the pinned source these are the six
+   of [string_natives]; the check derives the set per run from the natives that occur in the
+   dumps and validates it on the compiled types (every sample serialises to a JSON string), so
+   a string format added to convert_string is in the domain without touching the model *)
+Variable string_native : ustring -> bool.
 
 (* ---------------- which impls a type is deemed to have (has_impl) ---------------- *)
 Fixpoint has_impl (T : space) (fuel : nat) (t : id) (tr : trait) : bool :=
@@ -246,7 +251,7 @@ Fixpoint string_wired (T : space) (fuel : nat) (t : id) : bool :=
   | S f =>
     match get_det T t with
     | Some DString => true
-    | Some (DNative n _ _) => is_string_native n
+    | Some (DNative n _ _) => string_native n
     | Some (DBox i) => string_wired T f i
     | Some (DNewtype _ _ i c) =>
         match c with
@@ -504,18 +509,20 @@ Variable re_tab : list (ustring * ustring * bool).
 Variable np_tab : list (ustring * ustring * bool).
 Variable nd_tab : list (ustring * ustring * ustring).
 Variable ns_tab : list (ustring * ustring * ustring).
+Variable sn_tab : list ustring.
 
 Let rm := tab2 false re_tab.
 Let np := tab2 false np_tab.
 Let nd := tab2 [] nd_tab.
 Let ns := tab2 [] ns_tab.
+Let sn := fun n => mem_ustr n sn_tab.
 
 Definition FUEL : nat := 12.
 
 (* static facts of one type: wired, wf, finalize_agrees, has_impl F/D, emits fromstr/tryfrom/tryfrom_inner/display,
    api_has_impl F/D *)
 Definition show_static (T : space) (t : id) : string :=
-  "[" ++ show_bool (string_wired T FUEL t) ++ "," ++ show_bool (wf_conv T FUEL t) ++ ","
+  "[" ++ show_bool (string_wired sn T FUEL t) ++ "," ++ show_bool (wf_conv T FUEL t) ++ ","
       ++ show_bool (finalize_agrees T FUEL t) ++ ","
       ++ show_bool (has_impl T FUEL t TFromStr) ++ "," ++ show_bool (has_impl T FUEL t TDisplay) ++ ","
       ++ show_bool (emits_fromstr T FUEL t) ++ "," ++ show_bool (emits_tryfrom T FUEL t) ++ ","
